@@ -5,6 +5,7 @@ raises at any position, an external thread calls maybe_stop(exc?) at any point, 
 timeout configured — any parked wait may time out (a scheduler choice).
 """
 from harness import lib_queue as lq
+from harness import lib_queue_backends as lqb
 
 PID = 'C05'
 TITLE = 'Failures and stop requests propagate through queues without hanging'
@@ -57,6 +58,19 @@ def gen_cases(ctx):
   for i in range(120 if ctx.quick else 3000):
     yield with_faults(rng, blocked_producers_case(rng), ctx)
     ctx.count('mode', 'blocked_producers')
+  # round 10: the fault events over every BACKEND the constructors accept (bounded and unbounded; a quarter of the
+  # schedules producers-first, a quarter consumers-first): a failing item / a stop request without / with an exception /
+  # a timeout, rotating
+  for k in range(16 if ctx.quick else 320):
+    for j, (b, bd) in enumerate(lqb.sync_arm_list()):
+      ev = ['fail', 'stop', 'excstop', 'timeout'][(k // 4 + j) % 4]
+      case = lqb.gen_backend_case(
+          rng, k, b, bd, 3 if ctx.quick else 5, fail_p=0.8 if ev == 'fail' else 0.0, timeout=ev == 'timeout',
+          stopper=dict(kind='stopper') if ev == 'stop' else dict(kind='stopper', exc='ValueError') if ev == 'excstop' else None)
+      case['mode'] = 'backend:' + ev
+      ctx.count('mode', case['mode'])
+      ctx.count('backend_cases', lqb.arm(case))
+      yield with_faults(rng, case, ctx)
 
 
 POST = ['get', 'get_nowait', 'get_batch', 'iter']
@@ -154,6 +168,10 @@ GUIDED_CONFIGS = [
     _cfg(0, [_P([0, 1]), _P([100], 901), _B(2, True), _S('ValueError')]),
     _cfg(1, [_P([0, 1, 2]), _G, _B(2, True)], timeout=True),
     _cfg(2, [_P([0, 1, 'fail']), _P([100, 101, 102], 901), _B(3, False), _S()], timeout=True),
+    # round 10: the same LTS walks replayed on the other backends (the LTS is backend-independent)
+    dict(_cfg(1, [_P([0, 'fail', 1]), _P([100, 101], 901), _G, _B(2, True)]), backend='asyncio.Queue'),
+    dict(_cfg(1, [_P([0, 1, 2]), _G, _B(2, True), _S()], timeout=True), backend='AsyncIteratorQueue', max_enq=0),
+    dict(_cfg(0, [_P([0, 1]), _P([100, 'fail'], 901), _B(2, True), _S('ValueError')]), backend='queue.SimpleQueue'),
 ]
 
 
@@ -167,14 +185,24 @@ def extra(ctx):
                    f'promised event order ({len(PROMISED)} orders promised, missing {missing})')
   if missing:
     from harness.core import InfraError
-    raise InfraError(f'C05: promised event orders not exercised by any run that ended: {missing}')
+    if not (sum(lqb.VERDICT.values()) or ctx.extra_disagreements or ctx.extra_oracle_failures):
+      raise InfraError(f'C05: promised event orders not exercised by any run that ended: {missing}')
+  lqb.enforce(ctx)
 
 
 run_impl = lq.run_impl
 model_requests_obs = lq.model_requests_obs
 model_requests = None
 model_obs = lq.model_obs
-compare = lq.compare
+
+
+def compare(obs, m):
+  d = lq.compare(obs, m)
+  if d is not None:
+    lqb.VERDICT['disagreement'] += 1
+  if isinstance(obs, dict) and obs.get('oracle_new_failure'):
+    lqb.VERDICT['oracle failure outside the known input classes'] += 1
+  return d
 
 
 def history(case, obs):
@@ -206,6 +234,13 @@ def history(case, obs):
 
 
 def oracle(case, obs):
+  what = _oracle(case, obs)
+  if what is not None and finding(case, what) is None:
+    obs['oracle_new_failure'] = True      # travels to the main process with the observation (see lqb.enforce)
+  return what
+
+
+def _oracle(case, obs):
   if obs['outcome'] != 'done':
     return f"{obs['outcome']}: threads blocked forever {obs['blocked']} after {len(obs['choices'])} steps"
   w = lq.safety_oracle(case, obs)
@@ -333,6 +368,7 @@ def observe(case, obs):
 
 def nontrivial(case, obs):
   observe(case, obs)
+  lqb.note_run(case, obs)
   ch = [c[0] for c in obs['choices']]
   turns = sum(1 for a, b in zip(ch, ch[1:]) if a != b)
   fault = any(t['outcome'] and t['outcome']['raise'] != 'StopIteration' for t in obs['threads']) or \
